@@ -87,6 +87,8 @@ func applyOp(o *op, pool []modeling.Mesh, i, j int) (res []modeling.Mesh, outcom
 		return nil, "crash"
 	case g.Reported:
 		return nil, "reported-failure"
+	case o.identity:
+		return res, "observed-through-pointer"
 	case o.observer:
 		return nil, "observed"
 	}
@@ -191,6 +193,18 @@ func (e *explorer) step(o *op, i, j, level int) {
 	e.c.Transition()
 	after := fmt.Sprintf("%s", o.name)
 	intact := e.verifyPool(after)
+	if outcome == "observed-through-pointer" {
+		// the value the pointer refers to after the call is the value it referred to before
+		var h uint64
+		g := core.Guard(func() { h = meshlib.QuickHash(res[0]) })
+		if len(res) != 1 || g.Panicked || h != e.hashes[i] {
+			cs := e.curCase()
+			e.c.Violate(core.Violation{Site: "modeling/" + o.site, Clause: "a mesh value, once obtained, never changes",
+				Class:  "value-changed-through-the-pointer-it-was-handed-by",
+				Detail: cs.String() + ": after the call the mesh variable whose address was handed over holds a different value", Case: cs})
+		}
+		res, outcome = nil, "observed"
+	}
 	// differential twin: same op on equal operands must give an equal result, whatever happened before
 	var rh uint64 = 1
 	keep := res[:0:0]
